@@ -4,10 +4,11 @@ pub struct Lpt1Write {}
 
 impl Write for Lpt1Write {
     fn write(&mut self, _buf: &[u8]) -> std::io::Result<usize> {
-        unimplemented!()
+        // there is no printer
+        Err(std::io::Error::from(std::io::ErrorKind::Unsupported))
     }
 
     fn flush(&mut self) -> std::io::Result<()> {
-        unimplemented!()
+        Ok(())
     }
 }
